@@ -15,7 +15,7 @@ RULE = ("cases = a generated class hierarchy (base with 2-4 named constraint blo
         "of further instances; in ~45% of the cases the base class also has a random list q (2-bit elements) that blocks "
         "of every level constrain through foreach, and the history appends to q of single instances (also while blocks of "
         "that instance are off); the holder object has a block of its own that is named like a block of the objects it holds "
-        "(c0) and is toggled too.  Model: per instance {block name -> enabled}; enforced statements = the most-derived "
+        "(c0) and is toggled too; a quarter of the blocks are bound by assignment (name = vsc.constraint(fn)) instead of the decorator.  Model: per instance {block name -> enabled}; enforced statements = the most-derived "
         "definition of every enabled name.  Oracle: the free draw lies in the enumerated S_ref(enforced) of that very "
         "instance (SolveFailure iff empty); pinned probe pairs per block B: an assignment violating only B is accepted iff "
         "B is off for that instance - run on the toggled instance and on every other one.  non-trivial = >=2 toggles on >=2 "
@@ -77,6 +77,11 @@ def cases(d):
                     rhs = ["lit", d.randint(0, 3)] if d.chance(60) else ["f", d.choice(["a", "k"])]
                     b["stmts"].append(["foreach", "q", "i", None,
                                        [["expr", ["bin", d.choice(["<", "<=", "!=", ">", ">=", "=="]), ["el", "q", ["iv", "i"], None], rhs]]]])
+    # some blocks are bound by assignment (c0 = vsc.constraint(fn)): the function's name is not the block's name
+    for c in classes:
+        for b in c["blocks"]:
+            if d.chance(25):
+                b["bind"] = True
     nlev = len(classes)
     ops = []
     # population: instance = ["new", level, place] place: top | nested | elem
